@@ -38,6 +38,9 @@ struct EntropyScript {
     errno: i32,
     calls: Vec<(usize, i32, String)>,
     active: bool,
+    /// the last bytes served successfully in this process, across requests (a library that fetches entropy ahead may hand out
+    /// bytes it was served during an earlier request)
+    recent: Vec<u8>,
 }
 
 static ENTROPY: Mutex<EntropyScript> = Mutex::new(EntropyScript {
@@ -48,6 +51,7 @@ static ENTROPY: Mutex<EntropyScript> = Mutex::new(EntropyScript {
     errno: 5,
     calls: Vec::new(),
     active: false,
+    recent: Vec::new(),
 });
 
 #[cfg(not(miri))]
@@ -96,6 +100,11 @@ pub unsafe extern "C" fn getentropy(buffer: *mut u8, len: usize) -> i32 {
     }
     std::ptr::copy_nonoverlapping(out.as_ptr(), buffer, len);
     script.calls.push((len, 0, hex::encode(&out)));
+    script.recent.extend_from_slice(&out);
+    if script.recent.len() > 8192 {
+        let cut = script.recent.len() - 4096;
+        script.recent.drain(..cut);
+    }
     0
 }
 
@@ -174,13 +183,17 @@ fn run(req: &Value) -> Result<Value, String> {
                 s.active = !req.get("passthrough").and_then(Value::as_bool).unwrap_or(false);
             }
             let result = panic::catch_unwind(AssertUnwindSafe(|| Mnemonic::random(Language::English, length)));
-            let calls = {
+            let (calls, recent) = {
                 let mut s = ENTROPY.lock().unwrap_or_else(|e| e.into_inner());
                 s.active = false;
-                s.calls
+                let calls = s
+                    .calls
                     .iter()
                     .map(|(len, ret, bytes)| json!({"len": len, "ret": ret, "bytes": bytes}))
-                    .collect::<Vec<_>>()
+                    .collect::<Vec<_>>();
+                // only reported when this request was served without any entropy call of its own
+                let recent = if calls.is_empty() { hex::encode(&s.recent) } else { String::new() };
+                (calls, recent)
             };
             match result {
                 Ok(Ok(m)) => {
@@ -190,7 +203,7 @@ fn run(req: &Value) -> Result<Value, String> {
                         Err(e) => json!({"err": e.to_string()}),
                     };
                     json!({"ok": {"phrase": printed, "length": m.mnemonic_length(), "reparse": reparse},
-                           "calls": calls})
+                           "calls": calls, "recent": recent})
                 }
                 Ok(Err(e)) => json!({"err": format!("{e:#}"), "stage": "random", "calls": calls}),
                 Err(_) => {
